@@ -28,17 +28,30 @@ pub fn build(k: Kind, texs: &[Tex], rng: &mut Rng, shuffle: bool) -> Built {
     }
 }
 
+/// equality of two reader results (Texture has no PartialEq)
+pub fn same_textures(a: &Result<Vec<Texture>, String>, b: &Result<Vec<Texture>, String>) -> bool {
+    match (a, b) {
+        (Err(x), Err(y)) => x == y,
+        (Ok(x), Ok(y)) => x.len() == y.len() && x.iter().zip(y.iter()).all(|(p, q)| p.filename == q.filename && p.width == q.width && p.height == q.height && p.pixel_data == q.pixel_data),
+        _ => false,
+    }
+}
+
 fn read(c: &mut Case, k: Kind, bytes: &[u8], what: &str) -> Option<Result<Vec<Texture>, String>> {
     // exact-size private copy at a (usually) odd address (see monitor::Tight): a reader that runs
     // past a truncated file reads a red zone under the sanitizer lanes, not the rest of the image
     let tight_copy = crate::monitor::tight(bytes);
     let bytes: &[u8] = &tight_copy;
-    c.lib(what, || match k {
-        Kind::Ctpk => ctpk::read(bytes).map_err(|e| e.to_string()),
-        Kind::Bch | Kind::BchNew => bch::read(bytes).map_err(|e| e.to_string()),
-        Kind::Cgfx => cgfx::read(bytes).map_err(|e| e.to_string()),
-        Kind::Tpl => Tpl::extract_textures(bytes).map_err(|e| e.to_string()),
-    })
+    c.lib_stable_by(
+        what,
+        || match k {
+            Kind::Ctpk => ctpk::read(bytes).map_err(|e| e.to_string()),
+            Kind::Bch | Kind::BchNew => bch::read(bytes).map_err(|e| e.to_string()),
+            Kind::Cgfx => cgfx::read(bytes).map_err(|e| e.to_string()),
+            Kind::Tpl => Tpl::extract_textures(bytes).map_err(|e| e.to_string()),
+        },
+        same_textures,
+    )
 }
 
 pub fn gen_tex(rng: &mut Rng, k: Kind, miri: bool) -> Tex {
